@@ -226,7 +226,20 @@ pub fn run_prover(prog: &str, sim_lim: Step) -> MachineResult {
     for cycle in 0..sim_lim {
         match prover.try_rule(cycle, state, &tape) {
             Some(Got(rule)) => {
+                #[cfg(bb_verif)]
+                let verif_before = tape.clone();
+
                 if let Some(times) = tape.apply_rule(&rule) {
+                    #[cfg(bb_verif)]
+                    verif::record_app(
+                        cycle,
+                        state,
+                        verif_before,
+                        rule.clone(),
+                        times,
+                        tape.clone(),
+                    );
+
                     // println!("--> applying rule: {:?}", rule);
                     rulapp += times;
                     continue;
@@ -522,4 +535,40 @@ fn test_macro_loop() {
     let back = make_backsymbol_macro(&block, (2, 3), 1);
 
     assert!(!run_for_infrul(&back, 1000));
+}
+
+/**************************************/
+
+// Verification hook (compiled only with `--cfg bb_verif`): a
+// thread-local record of every rule application made by `run_prover`.
+
+#[cfg(bb_verif)]
+pub mod verif {
+    use core::cell::RefCell;
+
+    use crate::{instrs::State, rules::Rule, tape::BasicTape};
+
+    pub type App = (u64, State, BasicTape, Rule, u64, BasicTape);
+
+    thread_local! {
+        static APPS: RefCell<Vec<App>> = const { RefCell::new(vec![]) };
+    }
+
+    pub fn record_app(
+        cycle: u64,
+        state: State,
+        before: BasicTape,
+        rule: Rule,
+        times: u64,
+        after: BasicTape,
+    ) {
+        APPS.with(|apps| {
+            apps.borrow_mut()
+                .push((cycle, state, before, rule, times, after));
+        });
+    }
+
+    pub fn take_apps() -> Vec<App> {
+        APPS.with(|apps| apps.borrow_mut().drain(..).collect())
+    }
 }
